@@ -58,6 +58,20 @@ func (g *Gen) calleeInfo(fr *Frame, c *ssa.CallCommon) (key string, fn *ssa.Func
 			key = k
 		}
 	}
+	// a package-level function variable (e.g. var timeNow = func() ...): contract keyed on the variable
+	if u, ok := c.Value.(*ssa.UnOp); ok {
+		if gl, ok := u.X.(*ssa.Global); ok {
+			k := pkgName(gl.Pkg.Pkg) + "." + gl.Name()
+			if g.lookupContract(k) != nil {
+				key = k
+			}
+		}
+	}
+	// a function value produced by external code (e.g. the cancel func of context.WithTimeout) can only
+	// touch memory external code could reach: treated like an external call without contract
+	if key == "dynamic" && g.externalFuncValue(c.Value, 0) {
+		key = "dynamic-external"
+	}
 	return
 }
 
@@ -88,6 +102,9 @@ func (g *Gen) call(fr *Frame, st *State, site ssa.Instruction, c *ssa.CallCommon
 	}
 	if strings.HasPrefix(key, "builtin.") {
 		return g.builtin(fr, st, site, c, strings.TrimPrefix(key, "builtin."), args, r)
+	}
+	if g.inInit && fn != nil && (fn.Name() == "init" || strings.HasPrefix(fn.Name(), "init#")) {
+		return Val{S: "Tuple", Ty: resT} // initializers of imported packages do not touch this package's variables
 	}
 	fr.callIdx[key]++
 	ord := fr.callIdx[key]
@@ -147,7 +164,7 @@ func (g *Gen) call(fr *Frame, st *State, site ssa.Instruction, c *ssa.CallCommon
 	}
 
 	// unknown callee: havoc
-	if key == "dynamic" || (fn != nil && len(fn.Blocks) > 0) {
+	if key == "dynamic" || (fn != nil && len(fn.Blocks) > 0 && g.isRepoPkg(pkgOfFn(fn))) {
 		g.vc.note("havoc-all", fmt.Sprintf("call to %s in %s (dynamic or too deep)", describeCall(c), fr.topKey()))
 		g.havocAll(st)
 	} else {
@@ -325,6 +342,13 @@ func (g *Gen) bindParams(fr *Frame, st *State, fc *FuncContract, key string, fn 
 	if len(args) > 0 && (invoke || (fn != nil && fn.Signature.Recv() != nil)) {
 		vars["recv"] = args[0]
 	}
+	for k, v := range vars {
+		if !strings.HasPrefix(k, "c_") {
+			if _, ok := vars["c_"+k]; !ok {
+				defer func(k string, v Val) { vars["c_"+k] = v }(k, v)
+			}
+		}
+	}
 	if fc != nil && len(fc.Params) > 0 {
 		off := 0
 		if len(fc.Params) < len(args) {
@@ -333,6 +357,7 @@ func (g *Gen) bindParams(fr *Frame, st *State, fc *FuncContract, key string, fn 
 		for i, n := range fc.Params {
 			if i+off < len(args) && n != "_" {
 				vars[n] = args[i+off]
+				vars["c_"+n] = args[i+off]
 			}
 		}
 	}
@@ -654,8 +679,12 @@ func (g *Gen) builtin(fr *Frame, st *State, site ssa.Instruction, c *ssa.CallCom
 		ch := args[0]
 		h := g.heapTerm(st, "closed$", "(Array Int Bool)")
 		if g.dry == 0 {
-			fr.callIdx["close"]++
-			g.addObligation(&Obligation{Name: fmt.Sprintf("%s.close#%d.not-closed-twice", fr.topKey(), fr.callIdx["close"]), Func: fr.topKey(), Kind: "nopanic",
+			tf := fr
+			for tf.parent != nil {
+				tf = tf.parent
+			}
+			tf.callIdx["close"]++
+			g.addObligation(&Obligation{Name: fmt.Sprintf("%s.close#%d.not-closed-twice", fr.topKey(), tf.callIdx["close"]), Func: fr.topKey(), Kind: "nopanic",
 				Guard: r, Goal: sNot(fmt.Sprintf("(select %s %s)", h, ch.T)), Src: "close of an already closed channel panics", Pos: g.posOf(site)})
 		}
 		g.setHeap(st, "closed$", "(Array Int Bool)", fmt.Sprintf("(store %s %s true)", h, ch.T), ch.T)
@@ -823,4 +852,34 @@ func (g *Gen) invokeClosure(fr *Frame, st *State, clo *Closure, args []Val, guar
 	}
 	fr.panics = append(fr.panics, cf.panics...)
 	return res
+}
+
+// externalFuncValue: the function value is the result of a call to a function outside the module.
+func (g *Gen) externalFuncValue(v ssa.Value, depth int) bool {
+	if depth > 3 {
+		return false
+	}
+	switch x := v.(type) {
+	case *ssa.Extract:
+		return g.externalFuncValue(x.Tuple, depth+1)
+	case *ssa.Call:
+		if x.Common().IsInvoke() {
+			t := types.Unalias(x.Common().Value.Type())
+			if n, ok := t.(*types.Named); ok {
+				return !g.isRepoPkg(n.Obj().Pkg())
+			}
+			return false
+		}
+		if f := x.Common().StaticCallee(); f != nil {
+			return !g.isRepoPkg(pkgOfFn(f))
+		}
+	case *ssa.Phi:
+		for _, e := range x.Edges {
+			if !g.externalFuncValue(e, depth+1) {
+				return false
+			}
+		}
+		return len(x.Edges) > 0
+	}
+	return false
 }
